@@ -29,8 +29,14 @@ pub fn analyse(dic: &sudachi::dic::dictionary::JapaneseDictionary, text: &str, m
 /// buffers on every call, so the text meets a buffer that held the text analysed two calls earlier); failures of the
 /// warm-up calls are ignored, they are part of the history
 pub fn analyse_after(dic: &sudachi::dic::dictionary::JapaneseDictionary, warm: &[String], text: &str, mode: sudachi::analysis::Mode) -> Result<Result<Analysed, String>, String> {
+    analyse_with(dic, warm, text, mode, None)
+}
+
+/// the same with a restricted word-info field subset (`set_subset`) installed after creation
+pub fn analyse_with(dic: &sudachi::dic::dictionary::JapaneseDictionary, warm: &[String], text: &str, mode: sudachi::analysis::Mode, subset: Option<sudachi::dic::subset::InfoSubset>) -> Result<Result<Analysed, String>, String> {
     catch(|| {
         let mut tok = StatefulTokenizer::new(dic, mode);
+        if let Some(s) = subset { tok.set_subset(s); }
         let mut ml = MorphemeList::empty(dic);
         for wt in warm {
             tok.reset().push_str(wt);
